@@ -27,7 +27,8 @@ def gen_trial(rng):
     for _ in range(400):
         t = recvfeed.gen_trial(rng, 'wf')
         e = [s['eph'] for s in t['srcs']]
-        if any(x == 0 for x in e) and any(e) and not t['balance']:
+        restarted = any(len({sd for sd, _, _ in pubs}) > 1 for pubs in t['published'])     # an ephemeral source that closes and restarts: outside EStream (ids strictly increasing)
+        if any(x == 0 for x in e) and any(e) and not t['balance'] and not restarted:
             t['state_mode'] = 'none'
             return t
     raise RuntimeError('no join-eph trial drawn')
